@@ -129,6 +129,8 @@ module Z :
 
   val opp : z -> z
 
+  val sub : z -> z -> z
+
   val mul : z -> z -> z
 
   val compare : z -> z -> comparison
@@ -383,3 +385,14 @@ val ns_case :
   char list list -> char list list -> char list list -> char list list option
   -> char list list option -> char list -> (char list dheap * char list
   ns) * char list eres
+
+val clip_down : z -> z -> z
+
+val range_down : nat -> z -> z -> z -> nat list
+
+val py_slice_neg : nat -> z option -> z option -> z -> nat list
+
+val slice_sem_any :
+  nat -> char list -> char list -> char list -> nat list option
+
+val index_sem_any : nat -> char list -> nat list option
